@@ -129,6 +129,16 @@ Definition norm1 (x d : rate) : rate :=
   | None => None
   | Some dv => if Qeqb dv 0 then x else option_map (fun xv => xv / dv) x
   end.
+(* the same, operation by operation (these are what the translator emits for the return expression; the tie lemma
+   tie_norm1 proves the composition equal to [norm1]) *)
+Definition ne0 (d : rate) : bool := match d with None => true | Some v => negb (Qeqb v 0) end.      (* d != 0 *)
+Definition np_divide_where1 (c : bool) (x d : rate) : rate :=           (* np.divide(x, d, out=zeros, where=c) *)
+  if c then match x, d with Some a, Some b => Some (a / b) | _, _ => None end else Some 0.
+Definition np_where1 (c : bool) (a b : rate) : rate := if c then a else b.                          (* np.where(c, a, b) *)
+(* normalize == "by_overall" / normalize == "by_min" *)
+Definition is_by_overall (nz : normalize) : bool := match nz with NOverall => true | _ => false end.
+Definition is_by_min (nz : normalize) : bool := match nz with NMin => true | _ => false end.
+
 (* broadcasting a (T,) vector against (G, T) slices flattened row-major *)
 Fixpoint tile {A} (k : nat) (l : list A) : list A := match k with O => [] | S k' => l ++ tile k' l end.
 
